@@ -296,4 +296,11 @@ pub proof fn lemma_seq_sum_prefix_le(s: Seq<usize>, k: int)
         assert(s.take(k) == s);
     }
 }
+
+pub assume_specification [<crate::grammar::Module as Clone>::clone] (p: &crate::grammar::Module) -> (r: crate::grammar::Module)
+    ensures r == *p;
+pub assume_specification [<crate::grammar::ItemDefinition as Clone>::clone] (p: &crate::grammar::ItemDefinition) -> (r: crate::grammar::ItemDefinition)
+    ensures r == *p;
+pub assume_specification [<crate::grammar::Type as Clone>::clone] (p: &crate::grammar::Type) -> (r: crate::grammar::Type)
+    ensures r == *p;
 }
